@@ -148,9 +148,14 @@ def e2e(ctx, n):
     rng = ctx.rng
     out = []
     for i in range(n):
-        w = hist.World(ctx, 7000 + i, random.Random(rng.randrange(1 << 30)))
+        # every second run has two items: the tree under test is the second one, the first has rules of its own (or none) -
+        # each item is filtered by its own rule list
+        two = i % 2 == 1
+        w = hist.World(ctx, 7000 + i, random.Random(rng.randrange(1 << 30)), nitems=2 if two else 1)
         try:
-            item = w.items[0]
+            item = w.items[1 if two else 0]
+            if two:
+                open(os.path.join(w.items[0], 'keep'), 'w').write('first item')
             names = ['a', 'b', 'ab', '.a', 'a.o', 'keep', 'skip', 'A', 'Skip', 'a.O', 'KEEP']
             paths = set()
             for _ in range(rng.randint(4, 14)):
@@ -159,8 +164,12 @@ def e2e(ctx, n):
                 try:
                     os.makedirs(os.path.dirname(p), exist_ok=True)
                     if not os.path.lexists(p):
-                        if rng.random() < 0.8:
+                        kind_ = rng.random()
+                        if kind_ < 0.65:
                             open(p, 'w').write('x' * rng.randint(0, 5))
+                        elif kind_ < 0.8:
+                            # (symbolic links - to a file, to a directory, dangling - are filtered like anything else)
+                            os.symlink(rng.choice(['keep', '.', 'nowhere', '../a']), p)
                         else:
                             os.mkdir(p)
                 except OSError:
@@ -171,10 +180,17 @@ def e2e(ctx, n):
                 rules.append('%s %s' % (rng.choice('+-'), g))
             if rng.random() < 0.5:
                 rules.append('- ' + rng.choice(['skip', '**/skip', '*.o', 'a/**', '**/a/*']))
+            links = [os.path.relpath(os.path.join(d_, x_), item) for d_, dn_, fn_ in os.walk(item) for x_ in dn_ + fn_ if os.path.islink(os.path.join(d_, x_))]
+            if links and rng.random() < 0.7:
+                # a rule that excludes a symbolic link by its path or by its name anywhere
+                l_ = rng.choice(links)
+                rules.insert(0, '- ' + rng.choice([l_, '**/' + os.path.basename(l_)]))
             if rng.random() < 0.25:
                 # the whitelist idiom: the last rule matches everything, also the empty path of the item root itself
                 rules = ['+ keep', '+ keep/**', '+ a', '- ' + rng.choice(['*', '**', '{a,}'])]
             w.filters = ['\n'.join(rules)]
+            if two:
+                w.filters = [rng.choice([None, '- *', '+ keep\n- **', '- skip\n- a\n- b\n- ab']), '\n'.join(rules)]
             r = w.backup(advance=10)
             real = os.path.realpath(item)
             existing = []
@@ -190,7 +206,7 @@ def e2e(ctx, n):
                         archived = sorted(os.path.relpath('/' + e['path'], real) for e in ent
                                           if ('/' + e['path']).startswith(real + '/'))
                         root_in = any('/' + e['path'] == real for e in ent)
-            out.append({'spec': w.filters[0], 'existing': sorted(existing), 'archived': archived, 'rc': r.rc,
+            out.append({'spec': w.filters[-1], 'two_items': two, 'existing': sorted(existing), 'archived': archived, 'rc': r.rc,
                         'root_archived': root_in if archived is not None else None})
         finally:
             w.cleanup()
